@@ -290,8 +290,8 @@ def p_op(op, ret, d, prev):
             bad.append(("copy", "base-class copy differs from its source"))
         return bad
     old = prev.get(op[1])
-    if t in ("RS", "R2", "GR"):
-        k, l, c = (1, op[2], op[3]) if t == "GR" else (op[2], op[3], 0) if t == "R2" else (op[2], op[3], op[4])
+    if t in ("RS", "R2", "GR", "G1"):
+        k, l, c = (1, op[2], op[3]) if t == "GR" else (1, op[2], 0) if t == "G1" else (op[2], op[3], 0) if t == "R2" else (op[2], op[3], op[4])
         if old is None:
             return bad
         if (d.kind, d.k, d.l, d.c, d.q, d.n) != (old.kind, k, l, c, old.q, old.n):
@@ -386,8 +386,8 @@ def branches(op, old, prev):
     if old is None:
         return []
     per = 4 if old.q else 1
-    if t in ("RS", "R2", "GR"):
-        k, l, c = (1, op[2], op[3]) if t == "GR" else (op[2], op[3], 0) if t == "R2" else (op[2], op[3], op[4])
+    if t in ("RS", "R2", "GR", "G1"):
+        k, l, c = (1, op[2], op[3]) if t == "GR" else (1, op[2], 0) if t == "G1" else (op[2], op[3], 0) if t == "R2" else (op[2], op[3], op[4])
         nd = l + c * per + old.n
         ndc = l + c * (3 if old.q else 1) + old.n
         out = []
@@ -404,8 +404,8 @@ def branches(op, old, prev):
                 out.append("ps-resize:conservative" + (":with-noise" if old.n else ""))
             else:
                 out.append("ps-resize:full" + (":with-noise" if old.n else ""))
-        if t == "GR":
-            out.append("gaussian-resize")
+        if t in ("GR", "G1"):
+            out.append("gaussian-resize" + (":default-argument" if t == "G1" else ""))
         return out
     if t == "AU":
         if op[2] != op[3]:
@@ -594,6 +594,8 @@ def alphabet(lay, grid, full=True):
             for c2 in grid["c"]:
                 n = lay.copy(); n.l, n.c = l2, c2
                 out.append(([("GR", 0, l2, c2)], n))
+            n = lay.copy(); n.l, n.c = l2, 0
+            out.append(([("G1", 0, l2)], n))
     else:
         for k2 in grid["k"]:
             for l2 in grid["l"]:
@@ -733,7 +735,7 @@ def gen_random(g, maxlen):
                 l2, c2 = r.randint(0, 4), r.randint(0, 2)
                 if r.random() < 0.3:
                     l2, c2 = lay.l, lay.c
-                ops.append(("GR", slot, l2, c2)); lay.l, lay.c = l2, c2
+                ops.append(("G1", slot, l2) if (c2 == 0 and r.random() < 0.5) else ("GR", slot, l2, c2)); lay.l, lay.c = l2, c2
             else:
                 k2, l2, c2 = r.randint(1, 4), r.randint(0, 4), r.randint(0, 2)
                 y = r.random()
